@@ -83,6 +83,20 @@ def query(ctx, reader, fake, ids, start, end, now, flt, tag):
                 ctx.violation('time-window listing in random order with limit %d (>= the %d recordings of the window) returned %d ids (%d distinct)' % (
                     limit, len(exp), len(rnd), len(set(rnd))), dict(desc, limit=limit))
                 break
+    if len(exp) >= 2 and (len(exp) + len(ids)) % 4 == 1 and not getattr(fake, 'fail_reads', None):
+        # the lookup is started inside a with-block / before close() of the (reading) cassette and consumed afterwards: closing a
+        # non-transient reading cassette is a no-op, the lazy lookup goes on
+        try:
+            it = iter(reader.iter_recording_ids(CAT[0], start_date=start, end_date=end, metadata=flt))
+            first = [next(it)]
+            reader.close()
+            late = first + list(it)
+            ctx.count('lookups_consumed_after_the_cassette_was_closed')
+            if sorted(late) != sorted(exp):
+                ctx.violation('a time-window lookup started before close() of the reading cassette and consumed afterwards returned %d of the %d recordings of the window' % (
+                    len(late), len(exp)), desc)
+        except Exception as ex:
+            ctx.violation('a time-window lookup consumed after close() of the reading cassette raised %s' % type(ex).__name__, desc)
     if len(got) != len(set(got)):
         ctx.violation('time-window listing has duplicates', desc)
     gs = set(got)
